@@ -220,7 +220,7 @@ def main():
     for (kind, spec, args), ans in zip(rep_cases, ask_chunked(drv, rep_lines)):
         td = L.build(spec)
         try:
-            with L.time_limit(5.0):
+            with L.time_limit(30.0):
                 r = td.repeat(*args[0]) if kind == "repeat" else td.repeat_interleave(args[0], dim=args[1])
             impl = ["ok", L.canon(r)]
         except Exception as e:  # noqa: BLE001
